@@ -313,7 +313,28 @@ func c36To4(c *Ctx, l *core.Layout, r c36Rep, fi *core.FuncInfo, g *core.Graph, 
 	if fn == nil || fn.Pkg() == nil || fn.Pkg().Path() != "net" || fn.Name() != "To4" {
 		return
 	}
-	key := fi.Name() + "|To4-result-nil-checked"
+	// The key names what is converted and where the result goes, not the enclosing function, so that extracting the
+	// statement into a helper does not turn a recorded finding into a new one.
+	recvDesc := "?"
+	if sel, ok := ast.Unparen(call.Fun).(*ast.SelectorExpr); ok {
+		if f := core.FieldOf(info, sel.X); f != nil {
+			recvDesc = f.Name()
+		} else {
+			recvDesc = exprStr(sel.X)
+		}
+	}
+	sink := "bytes"
+	for p := l.Parent(fi, call); p != nil; p = l.Parent(fi, p) {
+		if _, isStmt := p.(ast.Stmt); isStmt {
+			break
+		}
+		if ce, ok := p.(*ast.CallExpr); ok {
+			if se, ok := ast.Unparen(ce.Fun).(*ast.SelectorExpr); ok && se.Sel.Name == "String" {
+				sink = "text"
+			}
+		}
+	}
+	key := "To4(" + recvDesc + ")->" + sink + "|To4-result-nil-checked"
 	pos := c.P.Pos(call.Pos())
 	c.R.Cells++
 	parent := l.Parent(fi, call)
@@ -710,6 +731,62 @@ func c36Preamble(c *Ctx, l *core.Layout) {
 	}
 	var format, re string
 	var fpos, rpos token.Pos
+	// the format / regexp may live in a same-package helper that NewWriter / NewReader calls (depth 2) or in a package-level initialiser
+	bodiesOf := func(root *core.FuncInfo) []ast.Node {
+		out := []ast.Node{root.Decl.Body}
+		seen := map[*core.FuncInfo]bool{root: true}
+		frontier := []*core.FuncInfo{root}
+		for depth := 0; depth < 2; depth++ {
+			var next []*core.FuncInfo
+			for _, f := range frontier {
+				ast.Inspect(f.Decl.Body, func(n ast.Node) bool {
+					if call, ok := n.(*ast.CallExpr); ok {
+						if fn := core.Callee(f.Pkg.TypesInfo, call); fn != nil {
+							if d := c.P.DeclOf(fn); d != nil && d.Pkg == root.Pkg && d.Decl.Body != nil && !seen[d] {
+								seen[d] = true
+								out = append(out, d.Decl.Body)
+								next = append(next, d)
+							}
+						}
+					}
+					return true
+				})
+			}
+			frontier = next
+		}
+		for _, file := range root.Pkg.Syntax {
+			for _, d := range file.Decls {
+				if gd, ok := d.(*ast.GenDecl); ok && gd.Tok == token.VAR {
+					out = append(out, gd)
+				}
+			}
+		}
+		return out
+	}
+	for _, body := range bodiesOf(nw)[1:] {
+		ast.Inspect(body, func(n ast.Node) bool {
+			if call, ok := n.(*ast.CallExpr); ok && len(call.Args) >= 1 {
+				if fn := core.Callee(nw.Pkg.TypesInfo, call); fn != nil && fn.Pkg() != nil && fn.Pkg().Path() == "fmt" && strings.HasPrefix(fn.Name(), "Sprintf") {
+					if tv := nw.Pkg.TypesInfo.Types[call.Args[0]]; tv.Value != nil && tv.Value.Kind() == constant.String && strings.Contains(constant.StringVal(tv.Value), "rtpplay") {
+						format, fpos = constant.StringVal(tv.Value), call.Pos()
+					}
+				}
+			}
+			return true
+		})
+	}
+	for _, body := range bodiesOf(nr)[1:] {
+		ast.Inspect(body, func(n ast.Node) bool {
+			if call, ok := n.(*ast.CallExpr); ok && len(call.Args) == 1 {
+				if fn := core.Callee(nr.Pkg.TypesInfo, call); fn != nil && fn.Pkg() != nil && fn.Pkg().Path() == "regexp" && strings.HasPrefix(fn.Name(), "MustCompile") {
+					if tv := nr.Pkg.TypesInfo.Types[call.Args[0]]; tv.Value != nil && tv.Value.Kind() == constant.String && strings.Contains(constant.StringVal(tv.Value), "rtpplay") {
+						re, rpos = constant.StringVal(tv.Value), call.Pos()
+					}
+				}
+			}
+			return true
+		})
+	}
 	ast.Inspect(nw.Decl.Body, func(n ast.Node) bool {
 		if call, ok := n.(*ast.CallExpr); ok && len(call.Args) >= 1 {
 			if fn := core.Callee(nw.Pkg.TypesInfo, call); fn != nil && fn.Pkg() != nil && fn.Pkg().Path() == "fmt" && strings.HasPrefix(fn.Name(), "Sprintf") {
